@@ -220,6 +220,10 @@ var handleStates = []struct {
 	{"failed-open", []fsx.Op{{K: "Open", P: "/w/missing", Flag: os.O_RDONLY, H: 0}}},
 	{"closed", []fsx.Op{{K: "Open", P: "/w/f", Flag: os.O_RDWR, H: 0}, {K: "FClose", H: 0}}},
 	{"seek-far", []fsx.Op{{K: "Open", P: "/w/f", Flag: os.O_RDWR, H: 0}, {K: "FSeek", H: 0, Off: math.MaxInt64 - 5, Whence: 0}}},
+	// two seeks whose sum leaves the int64 range: the second must be refused and leave a usable offset
+	{"seek-sum-overflow", []fsx.Op{{K: "Open", P: "/w/f", Flag: os.O_RDWR, H: 0}, {K: "FSeek", H: 0, Off: 1 << 62, Whence: 0}, {K: "FSeek", H: 0, Off: 1 << 62, Whence: 1}}},
+	{"seek-far-then-cur", []fsx.Op{{K: "Open", P: "/w/f", Flag: os.O_RDWR, H: 0}, {K: "FSeek", H: 0, Off: math.MaxInt64 - 5, Whence: 0}, {K: "FSeek", H: 0, Off: math.MaxInt64, Whence: 1}}},
+	{"seek-end-overflow", []fsx.Op{{K: "Open", P: "/w/f", Flag: os.O_RDWR, H: 0}, {K: "FSeek", H: 0, Off: math.MaxInt64, Whence: 2}, {K: "FSeek", H: 0, Off: math.MinInt64, Whence: 1}}},
 	{"removed", []fsx.Op{{K: "Open", P: "/w/f", Flag: os.O_RDWR, H: 0}, {K: "Remove", P: "/w/f"}, {K: "Remove", P: "/w/g"}}},
 	{"created", []fsx.Op{{K: "Create", P: "/w/new", H: 0}}},
 	{"temp", []fsx.Op{{K: "CreateTemp", P: "/w", P2: "t*", H: 0}}},
@@ -432,7 +436,8 @@ func TestCheck(t *testing.T) {
 		fsx.Op{K: "Open", P: "/w/a", Flag: os.O_RDONLY, H: 0}, fsx.Op{K: "Open", P: "/w/a", Flag: os.O_RDONLY, H: 0}, fsx.Op{K: "Open", P: "/w", Flag: os.O_RDONLY, H: 0})
 	fileOps := []fsx.Op{
 		{K: "FRead", H: 1, N: 4}, {K: "FRead", H: 1, N: 64}, {K: "FWrite", H: 1, Data: "abc"}, {K: "FReadAt", H: 1, N: 4, Off: 8}, {K: "FWriteAt", H: 1, Data: "z", Off: 12},
-		{K: "FSeek", H: 1, Off: 0, Whence: 2}, {K: "FSeek", H: 1, Off: -3, Whence: 1}, {K: "FSeek", H: 1, Off: 7, Whence: 0}, {K: "FTruncate", H: 1, Size: 3}, {K: "FTruncate", H: 1, Size: 0},
+		{K: "FSeek", H: 1, Off: 0, Whence: 2}, {K: "FSeek", H: 1, Off: -3, Whence: 1}, {K: "FSeek", H: 1, Off: 7, Whence: 0},
+		{K: "FSeek", H: 1, Off: 1 << 62, Whence: 1}, {K: "FSeek", H: 1, Off: 1 << 62, Whence: 0}, {K: "FSeek", H: 1, Off: math.MaxInt64, Whence: 2}, {K: "FSeek", H: 1, Off: math.MinInt64, Whence: 1}, {K: "FTruncate", H: 1, Size: 3}, {K: "FTruncate", H: 1, Size: 0},
 		{K: "FStat", H: 1}, {K: "FSync", H: 1}, {K: "FClose", H: 1}, {K: "FReadAll", H: 1},
 		{K: "Open", P: "/w/f", Flag: os.O_RDWR, H: 1}, {K: "Open", P: "/w/f", Flag: os.O_RDWR | os.O_APPEND, H: 1}, {K: "Open", P: "/w/g", Flag: os.O_RDONLY, H: 1}, {K: "Open", P: "/w/a/p", Flag: os.O_RDWR | os.O_CREATE, Perm: 0o644, H: 1},
 	}
